@@ -5492,7 +5492,7 @@ impl RelationalEngine {
 
         {
             let key = (table.to_string(), column.to_string());
-            self.btree_indexes.write().entry(key).or_default();
+            self.btree_indexes.write().insert(key, BTreeMap::new());
         }
 
         // Build index from slab data
@@ -6606,6 +6606,10 @@ impl RelationalEngine {
 
     /// Apply a single undo entry during rollback.
     ///
+    /// Index entries are only maintained for indexes that exist: the undo log names every
+    /// indexed column, and touching the other kind of index would create entries for an index
+    /// the column does not have.
+    ///
     /// This function is infallible by design - rollback must always complete
     /// to release locks and clean up transaction state. Any errors during
     /// undo are collected and returned but do not prevent rollback from completing.
@@ -6630,15 +6634,19 @@ impl RelationalEngine {
 
                 // Remove from indexes (continue even if some fail)
                 for (col, value) in index_entries {
-                    if let Err(e) = self.index_remove(table, col, value, *row_id) {
-                        errors.push(format!(
-                            "Failed to remove index entry for {table}.{col}: {e}"
-                        ));
+                    if self.has_index(table, col) {
+                        if let Err(e) = self.index_remove(table, col, value, *row_id) {
+                            errors.push(format!(
+                                "Failed to remove index entry for {table}.{col}: {e}"
+                            ));
+                        }
                     }
-                    if let Err(e) = self.btree_index_remove(table, col, value, *row_id) {
-                        errors.push(format!(
-                            "Failed to remove btree index entry for {table}.{col}: {e}"
-                        ));
+                    if self.has_btree_index(table, col) {
+                        if let Err(e) = self.btree_index_remove(table, col, value, *row_id) {
+                            errors.push(format!(
+                                "Failed to remove btree index entry for {table}.{col}: {e}"
+                            ));
+                        }
                     }
                 }
             },
@@ -6658,37 +6666,45 @@ impl RelationalEngine {
 
                 // Revert index changes (continue even if some fail)
                 for change in index_changes {
-                    if let Err(e) =
-                        self.index_remove(table, &change.column, &change.new_value, *row_id)
-                    {
-                        errors.push(format!(
-                            "Failed to remove index entry for {table}.{}: {e}",
-                            change.column
-                        ));
+                    if self.has_index(table, &change.column) {
+                        if let Err(e) =
+                            self.index_remove(table, &change.column, &change.new_value, *row_id)
+                        {
+                            errors.push(format!(
+                                "Failed to remove index entry for {table}.{}: {e}",
+                                change.column
+                            ));
+                        }
                     }
-                    if let Err(e) =
-                        self.index_add(table, &change.column, &change.old_value, *row_id)
-                    {
-                        errors.push(format!(
-                            "Failed to add index entry for {table}.{}: {e}",
-                            change.column
-                        ));
+                    if self.has_index(table, &change.column) {
+                        if let Err(e) =
+                            self.index_add(table, &change.column, &change.old_value, *row_id)
+                        {
+                            errors.push(format!(
+                                "Failed to add index entry for {table}.{}: {e}",
+                                change.column
+                            ));
+                        }
                     }
-                    if let Err(e) =
-                        self.btree_index_remove(table, &change.column, &change.new_value, *row_id)
-                    {
-                        errors.push(format!(
-                            "Failed to remove btree index for {table}.{}: {e}",
-                            change.column
-                        ));
+                    if self.has_btree_index(table, &change.column) {
+                        if let Err(e) =
+                            self.btree_index_remove(table, &change.column, &change.new_value, *row_id)
+                        {
+                            errors.push(format!(
+                                "Failed to remove btree index for {table}.{}: {e}",
+                                change.column
+                            ));
+                        }
                     }
-                    if let Err(e) =
-                        self.btree_index_add(table, &change.column, &change.old_value, *row_id)
-                    {
-                        errors.push(format!(
-                            "Failed to add btree index for {table}.{}: {e}",
-                            change.column
-                        ));
+                    if self.has_btree_index(table, &change.column) {
+                        if let Err(e) =
+                            self.btree_index_add(table, &change.column, &change.old_value, *row_id)
+                        {
+                            errors.push(format!(
+                                "Failed to add btree index for {table}.{}: {e}",
+                                change.column
+                            ));
+                        }
                     }
                 }
             },
@@ -6711,13 +6727,17 @@ impl RelationalEngine {
 
                 // Restore index entries (continue even if some fail)
                 for (col, value) in index_entries {
-                    if let Err(e) = self.index_add(table, col, value, *row_id) {
-                        errors.push(format!("Failed to add index entry for {table}.{col}: {e}"));
+                    if self.has_index(table, col) {
+                        if let Err(e) = self.index_add(table, col, value, *row_id) {
+                            errors.push(format!("Failed to add index entry for {table}.{col}: {e}"));
+                        }
                     }
-                    if let Err(e) = self.btree_index_add(table, col, value, *row_id) {
-                        errors.push(format!(
-                            "Failed to add btree index entry for {table}.{col}: {e}"
-                        ));
+                    if self.has_btree_index(table, col) {
+                        if let Err(e) = self.btree_index_add(table, col, value, *row_id) {
+                            errors.push(format!(
+                                "Failed to add btree index entry for {table}.{col}: {e}"
+                            ));
+                        }
                     }
                 }
             },
